@@ -111,6 +111,15 @@ func checkDroppedErrors(c *engine.Ctx, rule string, pkgs ...string) {
 			g.Used = usedN[k]
 			golden[k] = g
 		}
+		// pairs that test every error are recorded too (dropped 0): they say which callees returned an error on the
+		// confirmed tree
+		for k, u := range usedN {
+			if _, ok := found[k]; !ok {
+				g := golden[k]
+				g.Used = u
+				golden[k] = g
+			}
+		}
 		b, _ := json.MarshalIndent(golden, "", " ")
 		_ = os.WriteFile(path, b, 0o644)
 	}
@@ -127,7 +136,17 @@ func checkDroppedErrors(c *engine.Ctx, rule string, pkgs ...string) {
 			facts = append(facts, d.fn+" at "+p.Pos(d.pos))
 		}
 		callee, pkg := k[strings.Index(k, "-> ")+3:], k[:strings.Index(k, " ->")]
+		calleeKnown := false
+		for gk := range golden {
+			if strings.HasSuffix(gk, "-> "+callee) {
+				calleeKnown = true
+			}
+		}
 		switch {
+		case !isTabled && !calleeKnown:
+			// the callee did not return an error on the confirmed tree (a new function, or a result added to an existing
+			// one and deliberately ignored by its old callers): no handling that existed has been lost
+			c.Hold("dropped:"+k, ds[0].pos, len(ds), facts, "%s is new as an error-returning function: %d call(s) ignore the added result", callee, len(ds))
 		case !isTabled:
 			c.Violate("dropped:"+k, ds[len(ds)-1].pos, facts, "the error of %s is dropped at %d site(s) of package %s, which never dropped it on the confirmed tree: a failure of that call now goes unnoticed",
 				callee, len(ds), pkg)
